@@ -418,3 +418,16 @@ def validate_real(report, run, batch, tag):
     report.cov["traces_validated_against_impl"] += 1
     report.cov["evaluations"] += 1
     return True
+
+
+
+def composition_check(report, N):
+    """Sketchnu.tla: ParallelAdd composed with concrete CMLin sketches; Refinement + safety."""
+    base = open(os.path.join(common.SPEC, "MC_Sketchnu.cfg")).read().replace("  N = 2", "  N = %d" % N)
+    cfg = write_cfg("sketchnu_%d.cfg" % N, base, [], [])
+    r = run_tlc("MC_Sketchnu", cfg, workers=16, tag="sketchnu%d" % N)
+    report.add_tlc("MC_Sketchnu (parallel_add over concrete linear sketches, N=%d K=4, all placements)" % N, r)
+    if not r.ok:
+        report.violation("model: %s %s violated in the composition Sketchnu.tla" % (r.kind, r.violated),
+                         {"kind": "model", "module": "MC_Sketchnu", "violated": r.violated,
+                          "signature": {"model": r.violated}})
